@@ -15,6 +15,7 @@ import (
 
 	"golang.org/x/tools/go/packages"
 
+	"verif/checker/cfgx"
 	"verif/checker/load"
 )
 
@@ -35,7 +36,7 @@ func (s ByteSet) Or(o ByteSet) ByteSet {
 func (s ByteSet) Minus(o ByteSet) ByteSet {
 	return ByteSet{s[0] &^ o[0], s[1] &^ o[1], s[2] &^ o[2], s[3] &^ o[3]}
 }
-func (s ByteSet) Empty() bool { return s[0]|s[1]|s[2]|s[3] == 0 }
+func (s ByteSet) Empty() bool             { return s[0]|s[1]|s[2]|s[3] == 0 }
 func (s ByteSet) SubsetOf(o ByteSet) bool { return s.Minus(o).Empty() }
 func (s ByteSet) Count() int {
 	n := 0
@@ -181,19 +182,19 @@ type Machine struct {
 	stepSig    *types.Signature
 	jerrPtr    types.Type
 
-	foundAt, found      *types.Func
-	push, pop           *types.Func
-	helperSets          map[*types.Func]ByteSet // caseNewLine -> NL etc (case helpers)
-	predSets            map[*types.Func]ByteSet // IsNewLine, isWhitespace
-	errorOnly           map[*types.Func]int     // 0 unknown, 1 yes, 2 no
-	libLen              map[*types.Func]bool
-	inlineDepth         int
-	eventStackT         *types.Named
-	eventProc           *types.Func
-	curState            *State
-	FuncsSeen           map[string]bool
-	OpaquePreds         map[string]int
-	Counts              map[string]int
+	foundAt, found *types.Func
+	push, pop      *types.Func
+	helperSets     map[*types.Func]ByteSet // caseNewLine -> NL etc (case helpers)
+	predSets       map[*types.Func]ByteSet // IsNewLine, isWhitespace
+	errorOnly      map[*types.Func]int     // 0 unknown, 1 yes, 2 no
+	libLen         map[*types.Func]bool
+	inlineDepth    int
+	eventStackT    *types.Named
+	eventProc      *types.Func
+	curState       *State
+	FuncsSeen      map[string]bool
+	OpaquePreds    map[string]int
+	Counts         map[string]int
 }
 
 type Problem struct {
@@ -763,44 +764,66 @@ func (m *Machine) readEventTables() error {
 	if procDecl == nil {
 		return fmt.Errorf("unresolved anchor: the Scanner method that dispatches on begin/end/single event predicates")
 	}
-	// walk its tagless switch
+	// roles by dataflow: the predicate that is known true where the event stack is pushed is
+	// "begin", the one known true where it is popped is "end", the remaining one "single"
+	// (whether the dispatch is a tagless switch, an if chain or guard clauses)
 	role := map[string]string{}
-	ast.Inspect(procDecl.Body, func(n ast.Node) bool {
-		cc, ok := n.(*ast.CaseClause)
-		if !ok || len(cc.List) != 1 {
-			return true
-		}
-		call, ok := cc.List[0].(*ast.CallExpr)
-		if !ok {
-			return true
+	cf := cfgx.New(procDecl.Body, m.Pkg.TypesInfo)
+	predOf := func(fa cfgx.Fact) string {
+		call, ok := ast.Unparen(fa.Expr).(*ast.CallExpr)
+		if !ok || !fa.Truth {
+			return ""
 		}
 		f := m.callee(call)
 		if f == nil || recvNamed(f) != evT {
+			return ""
+		}
+		for _, p := range preds {
+			if p.name == f.Name() {
+				return p.name
+			}
+		}
+		return ""
+	}
+	ast.Inspect(procDecl.Body, func(n ast.Node) bool {
+		c2, ok := n.(*ast.CallExpr)
+		if !ok {
 			return true
 		}
-		kind := "single"
-		for _, s := range cc.Body {
-			ast.Inspect(s, func(x ast.Node) bool {
-				if c2, ok := x.(*ast.CallExpr); ok {
-					if g := m.callee(c2); g != nil {
-						gs := g.Type().(*types.Signature)
-						// the event stack: a method taking one event and returning nothing pushes,
-						// one taking nothing and returning an event pops
-						if gs.Recv() != nil && gs.Params().Len() == 1 && gs.Results().Len() == 0 && recvNamed(g) != m.scannerT {
-							kind = "begin"
-							m.eventStackT = recvNamed(g)
-						}
-						if gs.Recv() != nil && gs.Params().Len() == 0 && gs.Results().Len() == 1 && recvNamed(g) != m.scannerT && recvNamed(g) != evT {
-							kind = "end"
-						}
-					}
-				}
-				return true
-			})
+		g := m.callee(c2)
+		if g == nil {
+			return true
 		}
-		role[f.Name()] = kind
+		gs := g.Type().(*types.Signature)
+		kind := ""
+		// the event stack: a method taking one event and returning nothing pushes,
+		// one taking nothing and returning an event pops
+		if gs.Recv() != nil && gs.Params().Len() == 1 && gs.Results().Len() == 0 && recvNamed(g) != m.scannerT && recvNamed(g) != evT {
+			if types.Identical(gs.Params().At(0).Type(), m.eventStructType()) || true {
+				kind = "begin"
+			}
+		}
+		if gs.Recv() != nil && gs.Params().Len() == 0 && gs.Results().Len() == 1 && recvNamed(g) != m.scannerT && recvNamed(g) != evT {
+			kind = "end"
+		}
+		if kind == "" {
+			return true
+		}
+		for _, fa := range cf.FactsAt(c2) {
+			if pn := predOf(fa); pn != "" {
+				role[pn] = kind
+				if kind == "begin" {
+					m.eventStackT = recvNamed(g)
+				}
+			}
+		}
 		return true
 	})
+	for _, p := range preds {
+		if role[p.name] == "" {
+			role[p.name] = "single"
+		}
+	}
 	for _, p := range preds {
 		switch role[p.name] {
 		case "begin":
@@ -829,6 +852,10 @@ func (m *Machine) readEventTables() error {
 	}
 	return nil
 }
+
+// eventStructType is a placeholder for the element type of the event stack (not needed to
+// tell push from pop: the shapes of the two methods differ).
+func (m *Machine) eventStructType() types.Type { return types.Typ[types.Invalid] }
 
 func recvNamed(f *types.Func) *types.Named {
 	sig := f.Type().(*types.Signature)
@@ -888,5 +915,7 @@ func (m *Machine) IsStepStackType(n *types.Named) bool {
 	st, _ := m.stackField.Type().(*types.Named)
 	return st != nil && n == st
 }
-func (m *Machine) IsEventStackType(n *types.Named) bool { return m.eventStackT != nil && n == m.eventStackT }
-func (m *Machine) IsEventProcessor(f *types.Func) bool  { return f != nil && f == m.eventProc }
+func (m *Machine) IsEventStackType(n *types.Named) bool {
+	return m.eventStackT != nil && n == m.eventStackT
+}
+func (m *Machine) IsEventProcessor(f *types.Func) bool { return f != nil && f == m.eventProc }
